@@ -20,6 +20,7 @@ From SV Require Import Model.WireIpv4 Proofs.WireIpv4Proofs.
 From SV Require Import Model.WireIpv6 Proofs.WireIpv6Proofs.
 From SV Require Import Model.WireIcmpv4 Proofs.WireIcmpv4Proofs.
 From SV Require Import Model.WireIcmpv6 Proofs.WireIcmpv6Proofs.
+From SV Require Import Model.WireTcp Proofs.WireTcpProofs Proofs.WireTcpEmitProofs.
 
 (* ---------------- Ethernet II (src/wire/ethernet.rs) ---------------- *)
 
@@ -263,3 +264,19 @@ Theorem C06_icmpv6_reparse : forall sum_ok sum_fill tx rx bs r,
     exists bs', icmpv6_emit sum_fill tx r b = Ok bs' /\ icmpv6_parse sum_ok rx bs' = Ok r.
 Proof. exact icmpv6_reparse. Qed.
 Print Assumptions C06_icmpv6_reparse.
+
+(* ---------------- TCP incl. all options (src/wire/tcp.rs) ----------------
+   [tcp_wf] is the proviso (Model/WireTcp.v): ports <> 0, window scale <= 14, option space <= 40,
+   SACK ranges a prefix of the array and only with an ACK and without SACK-permitted (decision on
+   candidate defect D15). *)
+
+Theorem C06_tcp_emit_no_panic : forall sum_fill tx r b,
+  tcp_wf r = true -> blen b = tcp_buffer_len r -> tcp_emit sum_fill tx r b <> Panic.
+Proof. exact tcp_emit_no_panic. Qed.
+Print Assumptions C06_tcp_emit_no_panic.
+
+Theorem C06_tcp_emit_ignores_old_bytes : forall sum_fill tx r b1 b2,
+  tcp_wf r = true -> blen b1 = tcp_buffer_len r -> blen b2 = tcp_buffer_len r ->
+  tcp_emit sum_fill tx r b1 = tcp_emit sum_fill tx r b2.
+Proof. exact tcp_emit_ignores_old_bytes. Qed.
+Print Assumptions C06_tcp_emit_ignores_old_bytes.
